@@ -3,13 +3,14 @@
 // Quick flavour: `Key::Meta(name).into_vec()` is abstracted to a 1-byte tag per name (the names themselves are extracted from
 // storage.rs and checked to be pairwise prefix-free, which is what justifies the abstraction).
 #![allow(unused, dead_code, unused_mut, static_mut_refs, non_snake_case)]
-pub const CAP: usize = 2;
-pub const DBCAP: usize = 7;
+pub const CAP: usize = 4;
+pub const NS: usize = 3;
+pub const MREC: usize = 2;
 pub const BCAP: usize = 6;
 pub const VCAP: usize = 8;
 #[macro_use] #[path = "../../prelude/macros.rs"] mod pmacros;
 include!("../../prelude/vec.rs");
-include!("../../prelude/kvstore.rs");
+include!("../../prelude/kvstore_meta.rs");
 pub type BlockNumber = u64;
 #[derive(Clone, Copy, PartialEq, Eq, Default, Debug)]
 pub struct Script { pub bytes: [u8; 2] }
@@ -44,16 +45,16 @@ include!("extracted.rs");
 #[cfg(kani)]
 mod harness {
     use super::*;
-    const NS: usize = 3;   // script identities 0..3 (lock scripts with bytes [id+1, 7])
+    // script identities 0..NS (lock scripts with bytes [id+1, 7])
     fn skey(id: usize) -> ByteVec { let mut k = ByteVec::new(); k.push(0xE1); k.push(id as u8 + 1); k.push(7); k.push(0); k }
     fn mkey(start: u64) -> ByteVec { let mut k = ByteVec::new(); k.push(0xE5); k.extend_from_slice(&start.to_be_bytes()); k }
     fn minkey() -> ByteVec { let mut k = ByteVec::new(); k.push(0xE7); k }
-    unsafe fn number_of(id: usize) -> Option<u64> { DB.get_u64_be(&skey(id)) }
-    unsafe fn pending_count() -> usize { let mut c = 0; let mut i = 0; while i < DB.n { if DB.e[i].k.len == 9 && DB.e[i].k.buf[0] == 0xE5 { c += 1; } i += 1; } c }
+    unsafe fn number_of(id: usize) -> Option<u64> { u64_be(DB.scripts[id * 2]) }
+    unsafe fn pending_count() -> usize { DB.nmatched }
 
     struct Pre { num: [Option<u64>; NS], min: u64, npending: usize }
     unsafe fn arbitrary_store(max_pending: usize) -> Pre {
-        DB.n = 0; DB.writes = 0; DB.crash_after = usize::MAX; GENESIS_FILTERED = 0;
+        DB.reset(); GENESIS_FILTERED = 0;
         let min: u64 = kani::any();
         DB.put_raw(&minkey(), &min.to_le_bytes());
         let mut num = [None; NS]; let mut cnt = 0; let mut i = 0;
@@ -74,9 +75,9 @@ mod harness {
         let pre = unsafe { arbitrary_store(MAXP) };
         let cmd: u8 = kani::any(); kani::assume(cmd < 3);
         let n: usize = kani::any(); kani::assume(n <= NCMD);
-        let mut scripts = Vec::new(); let mut ids = [0usize; CAP]; let mut nums = [0u64; CAP];
+        let mut scripts = Vec::new(); let mut ids = [0usize; 2]; let mut nums = [0u64; 2];
         let mut i = 0;
-        while i < CAP { if i < n { let id: usize = kani::any(); kani::assume(id < NS); let b: u64 = kani::any(); ids[i] = id; nums[i] = b;
+        while i < 2 { if i < n { let id: usize = kani::any(); kani::assume(id < NS); let b: u64 = kani::any(); ids[i] = id; nums[i] = b;
             scripts.push(ScriptStatus { script: Script { bytes: [id as u8 + 1, 7] }, script_type: ScriptType::Lock, block_number: b }); } i += 1; }
         let command = match cmd { 0 => SetScriptsCommand::All, 1 => SetScriptsCommand::Partial, _ => SetScriptsCommand::Delete };
         st.update_filter_scripts(scripts, command);
@@ -85,7 +86,7 @@ mod harness {
             let mut want = pre.num;
             if cmd == 0 { want = [None; NS]; }
             let mut i = 0;
-            while i < CAP { if i < n { if cmd == 2 { want[ids[i]] = None; } else { want[ids[i]] = Some(nums[i]); } } i += 1; }
+            while i < 2 { if i < n { if cmd == 2 { want[ids[i]] = None; } else { want[ids[i]] = Some(nums[i]); } } i += 1; }
             let mut i = 0;
             while i < NS { assert!(number_of(i) == want[i], "SPEC set_scripts: resulting script set / start numbers are not the documented replace / upsert / remove"); i += 1; }
             let min1 = st.get_min_filtered_block_number();
@@ -98,7 +99,7 @@ mod harness {
                 let mut i = 0;
                 while i < NS { if let Some(x) = want[i] { assert!(min1 <= x, "SPEC set_scripts: a script that is still registered has its recorded block number below MIN_FILTERED while the pending matched blocks were discarded (blocks after its number are never examined)"); } i += 1; }
                 // genesis is filtered when a script starts at 0
-                let mut zero = false; let mut i = 0; while i < CAP { if i < n && nums[i] == 0 && cmd != 2 { zero = true; } i += 1; }
+                let mut zero = false; let mut i = 0; while i < 2 { if i < n && nums[i] == 0 && cmd != 2 { zero = true; } i += 1; }
                 assert!((GENESIS_FILTERED > 0) == zero, "SPEC set_scripts: genesis block filtered iff a given script starts at 0");
             }
             kani::cover!(cmd == 1 && pre.npending > 0 && n > 0, "partial with pending records");
@@ -108,6 +109,36 @@ mod harness {
     }
     #[kani::proof] #[kani::unwind(10)] fn set_scripts_q() { set_scripts::<2, 1>(); }
     #[kani::proof] #[kani::unwind(10)] fn set_scripts_t() { set_scripts::<2, 2>(); }
+
+    /// O8.1: crash at any write boundary of update_filter_scripts.  `DB.crash_after = k`: the first k write operations (a batch is
+    /// one atomic operation) take effect, the rest are lost.  Recoverability invariant R2 = J: on the surviving store a script's
+    /// recorded number may lag MIN_FILTERED only while matched-block records are pending.
+    #[kani::proof] #[kani::unwind(10)]
+    fn set_scripts_crash() {
+        let st = Storage { db: DbHandle };
+        let pre = unsafe { arbitrary_store(1) };
+        let k: usize = kani::any(); kani::assume(k <= 5);
+        unsafe { DB.crash_after = k; }
+        let cmd: u8 = kani::any(); kani::assume(cmd < 3);
+        let n: usize = kani::any(); kani::assume(n >= 1 && n <= 2);
+        let mut scripts = Vec::new(); let mut i = 0;
+        // scripts that start above genesis (a start at 0 additionally re-filters the genesis block; not part of this obligation)
+        while i < 2 { if i < n { let id: usize = kani::any(); kani::assume(id < NS); let b: u64 = kani::any(); kani::assume(b > 0);
+            scripts.push(ScriptStatus { script: Script { bytes: [id as u8 + 1, 7] }, script_type: ScriptType::Lock, block_number: b }); } i += 1; }
+        let command = match cmd { 0 => SetScriptsCommand::All, 1 => SetScriptsCommand::Partial, _ => SetScriptsCommand::Delete };
+        st.update_filter_scripts(scripts, command);
+        unsafe {
+            let total = DB.writes;                   // write operations the complete run performs
+            let min1 = u64_le(DB.min).unwrap_or(0);
+            let mut i = 0;
+            while i < NS {
+                if let Some(x) = number_of(i) { if x < min1 { assert!(pending_count() > 0, "SPEC crash: after a crash inside set_scripts a registered script has its recorded number below MIN_FILTERED with no pending matched blocks: the blocks in between are never examined"); } }
+                i += 1;
+            }
+            kani::cover!(k < total && k >= 1, "a crash strictly inside the operation");
+            kani::cover!(k >= total, "no crash");
+        }
+    }
 
     /// O9.2: update_block_number(n) only raises numbers below n to exactly n
     #[kani::proof] #[kani::unwind(10)]
